@@ -69,6 +69,17 @@ def Operand.kind : Operand → Kind
   | .bool _ => .bool | .u16 _ => .u16 | .u16s _ => .u16s
   | .pathDomain _ => .pathDomain | .compositeKind _ => .compositeKind | .upvalues _ => .upvalues
 
+/-- the operand is within the range its encoding can represent: `uint16` operands below 2^16 (always
+    true of the Go field types), path domains below 2^8, composite kinds below 2^16 (the Go type is
+    `uint`, the encoder truncates), arrays of at most 65535 elements (the encoder panics above) -/
+def Operand.inRange : Operand → Bool
+  | .bool _ => true
+  | .u16 v => v < 65536
+  | .u16s vs => vs.length ≤ 65535 && vs.all (· < 65536)
+  | .pathDomain v => v < 256
+  | .compositeKind v => v < 65536
+  | .upvalues us => us.length ≤ 65535 && us.all (·.1 < 65536)
+
 def emitOperands : List OperandSpec → List Operand → Option Bytes
   | [], [] => some []
   | s :: ss, o :: os =>
